@@ -161,7 +161,10 @@ def Mirp.step (fuel : Nat) (m : Mirp) (op : MOp) : Mirp × MRes :=
     | none => (m, .nonterm)
     | some (m', .ok names) => (m', .ok names)
     | some (m', .error e) => (m', .err e)
-  | .travel sp u dist sf df => (m.addTravelArcs (lookupDist dist) sp u (lookupD sf) (lookupD df), .ok [])
+  | .travel sp u dist sf df =>
+    -- `distance / vessel_speed` is evaluated for the first (supply port, demand port) pair, before any arc is added
+    if sp = 0 ∧ m.supply ≠ [] ∧ m.demand ≠ [] then (m, .zerodiv)
+    else (m.addTravelArcs (lookupDist dist) sp u (lookupD sf) (lookupD df), .ok [])
   | .exit t c => (m.addExitArcs t c, .ok [])
   | .entry l t c =>
     match m.addEntryArcs l t c with
